@@ -333,14 +333,26 @@ pub fn set_nonce_random_override(v: Option<[u8; 8]>) {
     NONCE_OVERRIDE.with(|c| c.set(v));
 }
 
-/// The forced value is constant per session key (the worst case for nonce uniqueness under one
-/// key) but differs between keys: the handler's nonce -> address map relies on message nonces
-/// being unique across sessions, which real randomness gives with overwhelming probability.
+thread_local! {
+    static NONCE_OVERRIDE_PER_KEY: std::cell::Cell<bool> = const { std::cell::Cell::new(false) };
+}
+
+/// With `per_key`, the forced value is mixed with the session key: still constant under one key
+/// (the worst case for nonce uniqueness under that key) but different between keys. Needed in
+/// worlds where one node has first messages to several peers in flight at once: the handler's
+/// nonce -> address map relies on message nonces being unique across sessions, which real
+/// randomness gives with overwhelming probability.
+pub fn set_nonce_override_per_key(per_key: bool) {
+    NONCE_OVERRIDE_PER_KEY.with(|c| c.set(per_key));
+}
+
 pub(crate) fn nonce_random_override(random: [u8; 8], key: &[u8; 16]) -> [u8; 8] {
     match NONCE_OVERRIDE.with(|c| c.get()) {
         Some(mut forced) => {
-            for (f, k) in forced.iter_mut().zip(key.iter()) {
-                *f ^= *k;
+            if NONCE_OVERRIDE_PER_KEY.with(|c| c.get()) {
+                for (f, k) in forced.iter_mut().zip(key.iter()) {
+                    *f ^= *k;
+                }
             }
             forced
         }
